@@ -52,6 +52,7 @@ const (
 	tickRebroadcast = 40 * time.Millisecond   // RebroadcastDelay (periodic search) in histories with ticks
 	tickWindow      = 350 * time.Millisecond  // how long one tick event watches the want-list
 	unitWait        = 30 * time.Second        // deadline inside a unit / node case; when it passes the case is cut short
+	lagWait         = 5 * time.Second         // how long a request next to a lagging reader is given to be served
 )
 
 // stuckCases counts cases that were cut short because a deadline passed; once a few have been
@@ -341,6 +342,171 @@ func genUnit(e *vh.Env) ([][]int, []uev) {
 	return reqs, evs
 }
 
+// ================= lagging reader =================
+
+// seq is 0..n-1 shifted by off.
+func seq(off, n int) []int {
+	out := make([]int, n)
+	for i := range out {
+		out[i] = off + i
+	}
+	return out
+}
+
+// readAll reads from ch until it has n blocks, the channel closes or d passes.
+func readAll(u *universe, ch <-chan blocks.Block, n int, d time.Duration) (out []int, closed bool) {
+	deadline := time.After(d)
+	for len(out) < n {
+		select {
+		case b, ok := <-ch:
+			if !ok {
+				return out, true
+			}
+			out = append(out, u.id[b.Cid()])
+		case <-deadline:
+			return out, false
+		}
+	}
+	return out, false
+}
+
+func lagTerm(keys0, pubs, out0 []int, cancelled bool, others [][2][]int) string {
+	os := vh.ListOf(others, func(o [2][]int) string { return "(" + nats(o[0]) + ", " + nats(o[1]) + ")" })
+	return fmt.Sprintf("(CLag %s %s %s %s %s)", nats(keys0), nats(pubs), nats(out0), vh.Bool(cancelled), os)
+}
+
+// runLagUnit: a subscription for n keys (through the real getter) whose output is not read while all its
+// blocks are published; then other requests on the same PubSub - one that subscribed before, one that
+// subscribes only now - must be served within lagWait. With cancelLagging the lagging request is cancelled
+// before the others are served (nobody drains its channels any more); otherwise it is drained at the end
+// and must have got everything, in publication order.
+func runLagUnit(t *testing.T, n int, cancelLagging bool) (string, map[string]any) {
+	u := newUniverse(n+2, "lag")
+	notif := bsclient.VerifNewPubSub()
+	defer func() { go notif.Shutdown() }() // not waited for: a wedged pubsub would hold it for ever
+	start := func(ctx context.Context, keys []int) <-chan blocks.Block {
+		ch, _ := bsclient.VerifAsyncGetBlocks(ctx, context.Background(), u.cids(keys), notif,
+			func(context.Context, []cid.Cid) {}, func([]cid.Cid) {})
+		return ch
+	}
+	ctx, cancelAll := context.WithCancel(context.Background())
+	defer cancelAll()
+	ctx0, cancel0 := context.WithCancel(ctx)
+	defer cancel0()
+	keys0 := seq(0, n)
+	ch0 := start(ctx0, keys0)
+	early := []int{n, 0} // subscribed before the flood; shares key 0 with the lagging request
+	chEarly := start(ctx, early)
+	// the flood: every block of the lagging request, none of them read. Publish itself must not block.
+	pubDone := make(chan struct{})
+	go func() {
+		for _, k := range keys0 {
+			notif.Publish(peer.ID("src"), u.blks[k])
+		}
+		notif.Publish(peer.ID("src"), u.blks[n])
+		close(pubDone)
+	}()
+	select {
+	case <-pubDone:
+	case <-time.After(lagWait):
+	}
+	if cancelLagging {
+		cancel0()
+	}
+	outEarly, _ := readAll(u, chEarly, 2, lagWait)
+	// a request that starts only now (Subscribe goes through the same pubsub goroutine)
+	late := []int{n + 1}
+	var outLate []int
+	lateDone := make(chan struct{})
+	go func() {
+		chLate := start(ctx, late)
+		notif.Publish(peer.ID("src"), u.blks[n+1])
+		outLate, _ = readAll(u, chLate, 1, lagWait)
+		close(lateDone)
+	}()
+	select {
+	case <-lateDone:
+	case <-time.After(lagWait + time.Second): // not even subscribed: nothing delivered
+	}
+	var out0 []int
+	if !cancelLagging {
+		out0, _ = readAll(u, ch0, n+1, lagWait) // n blocks, then the close
+	}
+	// let a late goroutine finish before its result is read (after the drain nothing is wedged any more)
+	select {
+	case <-lateDone:
+	case <-time.After(lagWait):
+	}
+	var lateCopy []int
+	select {
+	case <-lateDone:
+		lateCopy = outLate
+	default:
+	}
+	term := lagTerm(keys0, keys0, out0, cancelLagging, [][2][]int{{early, outEarly}, {late, lateCopy}})
+	return term, map[string]any{"kind": "lagging-reader-unit", "keys": n, "cancel_lagging": cancelLagging}
+}
+
+// runLagNode: the same at node level. The requester asks for n blocks that the provider holds and reads
+// only the first one (the others arrive and wait in the subscription's buffers); then, like a DAG walk, it
+// fetches another block with GetBlock before reading on. With cancelLagging the big request is cancelled first.
+func runLagNode(t *testing.T, n int, cancelLagging bool) (string, map[string]any) {
+	u := newUniverse(n+1, "lagnode")
+	vnet := tn.VirtualNetwork(delay.Fixed(0))
+	ig := testinstance.NewTestInstanceGenerator(vnet, mockrouting.NewServer(), nil, nil)
+	defer ig.Close()
+	inst := ig.Instances(2)
+	req, prov := inst[0], inst[1]
+	ctx, cancelAll := context.WithCancel(context.Background())
+	defer cancelAll()
+	for _, b := range u.blks {
+		if err := prov.Blockstore.Put(ctx, b); err != nil {
+			t.Fatal(err)
+		}
+	}
+	keys0 := seq(0, n)
+	ctx0, cancel0 := context.WithCancel(ctx)
+	defer cancel0()
+	ch0, err := req.Exchange.GetBlocks(ctx0, u.cids(keys0))
+	if err != nil {
+		t.Fatal(err)
+	}
+	out0, _ := readAll(u, ch0, 1, unitWait)
+	// give the rest time to arrive (they are wanted until received): the want-list drains when all are in
+	deadline := time.Now().Add(unitWait)
+	for len(req.Exchange.GetWantlist()) != 0 && time.Now().Before(deadline) {
+		time.Sleep(time.Millisecond)
+	}
+	if cancelLagging {
+		cancel0()
+	}
+	other := []int{n}
+	var outOther []int
+	done := make(chan struct{})
+	go func() {
+		gctx, gcancel := context.WithTimeout(ctx, lagWait)
+		defer gcancel()
+		if b, err := req.Exchange.GetBlock(gctx, u.blks[n].Cid()); err == nil {
+			outOther = []int{u.id[b.Cid()]}
+		}
+		close(done)
+	}()
+	var otherCopy []int
+	select {
+	case <-done:
+		otherCopy = outOther
+	case <-time.After(lagWait + time.Second): // GetBlock did not even return: nothing delivered
+	}
+	if !cancelLagging {
+		rest, _ := readAll(u, ch0, n, unitWait)
+		out0 = append(out0, rest...)
+	}
+	// the model fixes the order of the lagging request's output by publication order; over the network the
+	// arrival order is the provider's: hand the observed order to the model as the publication order
+	term := lagTerm(keys0, out0, out0, cancelLagging, [][2][]int{{other, otherCopy}})
+	return term, map[string]any{"kind": "lagging-reader-node", "keys": n, "cancel_lagging": cancelLagging}
+}
+
 // ================= node level =================
 
 type nev struct {
@@ -478,12 +644,58 @@ func runNode(t *testing.T, evs []nev) (string, map[string]any) {
 	// the engine followed is waited for.
 	follow := ""
 	stuck := false
+	// late: keys seen to stay in / come back into the want-list as want-BLOCKs although the model says they
+	// are gone (received or cancelled): the session want sender's late want of C37-2, which under heavy
+	// machine load also happens on a two-node network. They are reported to Coq, which then compares the
+	// want-lists without them and classifies the case as that finding. A key that comes back as a
+	// (re-broadcast) want-have is never put here.
+	late := map[int]bool{}
+	asked := map[int]bool{}
+	minusLate := func(xs []int) []int {
+		out := make([]int, 0, len(xs))
+		for _, x := range xs {
+			if !late[x] {
+				out = append(out, x)
+			}
+		}
+		return out
+	}
+	// lateExtras: what the want-list holds beyond want, if all of it is want-blocks for keys asked for earlier
+	lateExtras := func(got, want []int) []int {
+		wb := u.ids(req.Exchange.GetWantBlocks())
+		var extras []int
+		for _, k := range got {
+			if !subset([]int{k}, want) {
+				if !asked[k] || !subset([]int{k}, wb) {
+					return nil
+				}
+				extras = append(extras, k)
+			}
+		}
+		if !subset(want, got) {
+			return nil
+		}
+		return extras
+	}
 	waitFor := func(want []int, d time.Duration) ([]int, bool) {
 		deadline := time.Now().Add(d)
+		var extraSince time.Time
 		for {
 			got := wl()
-			if intsEq(got, want) {
+			if intsEq(minusLate(got), minusLate(want)) {
 				return got, true
+			}
+			if ex := lateExtras(minusLate(got), minusLate(want)); len(ex) > 0 {
+				if extraSince.IsZero() {
+					extraSince = time.Now()
+				} else if time.Since(extraSince) > leakWait {
+					for _, k := range ex {
+						late[k] = true
+					}
+					return got, true
+				}
+			} else {
+				extraSince = time.Time{}
 			}
 			if time.Now().After(deadline) {
 				return got, false
@@ -621,6 +833,9 @@ func runNode(t *testing.T, evs []nev) (string, map[string]any) {
 				t.Fatal(err)
 			}
 			reqs = append(reqs, &nreq{ch: ch, cancel: cancel})
+			for _, k := range e.Keys {
+				asked[k] = true
+			}
 			on.start(e.Sess, e.Keys)
 			off.start(e.Sess, e.Keys)
 			// blocks the provider already holds arrive now, one model event each
@@ -676,8 +891,15 @@ func runNode(t *testing.T, evs []nev) (string, map[string]any) {
 			// the open sessions; every sample is an observation (a key that comes back shows up here)
 			end := time.Now().Add(tickWindow)
 			var last []int
+			pred := on.wantlist()
+			if follow == "off" {
+				pred = off.wantlist()
+			}
 			for first := true; time.Now().Before(end); first = false {
 				got := wl()
+				for _, k := range lateExtras(minusLate(got), minusLate(pred)) {
+					late[k] = true // a late want-block, not a re-broadcast
+				}
 				if first || !intsEq(got, last) {
 					emit("NTick", got, true)
 					last = got
@@ -691,7 +913,12 @@ func runNode(t *testing.T, evs []nev) (string, map[string]any) {
 		stuckCases++
 	}
 	outs := vh.ListOf(reqs, func(r *nreq) string { return nats(r.out) })
-	term := fmt.Sprintf("(CNode %s %s)", vh.List(terms), outs)
+	var lateKeys []int
+	for k := range late {
+		lateKeys = append(lateKeys, k)
+	}
+	sort.Ints(lateKeys)
+	term := fmt.Sprintf("(CNode %s %s %s)", vh.List(terms), outs, nats(lateKeys))
 	if stuck || slow {
 		t.Logf("node case with a missed deadline (stuck=%v, missed delivery=%v): %s", stuck, slow, term)
 	}
@@ -1133,6 +1360,24 @@ func TestC37(t *testing.T) {
 		cs.Add(term, rp)
 		st.Case(term, true)
 		st.Count("unit")
+	}
+
+	// a reader that lags behind a large subscription must not hold up the other requests of the node
+	for _, n := range []int{1, 16, 17, 35, 36, 64, 200} {
+		for _, cancelLagging := range []bool{false, true} {
+			term, rp := runLagUnit(t, n, cancelLagging)
+			cs.Add(term, rp)
+			st.Case(term, true)
+			st.Count("lagging-reader.unit")
+		}
+	}
+	for _, n := range []int{40, 100} {
+		for _, cancelLagging := range []bool{false, true} {
+			term, rp := runLagNode(t, n, cancelLagging)
+			cs.Add(term, rp)
+			st.Case(term, true)
+			st.Count("lagging-reader.node")
+		}
 	}
 
 	// C37-2 is a race inside the client (no deterministic schedule without hooks): the spec on
